@@ -158,7 +158,8 @@ TasksPerm == /\ Range(tasks) = Present(tab)
              /\ Len(tasks) = Cardinality(Range(tasks))
 
 \* finished jobs are gone after every purge point
-PurgePoint == act.cmd \in {"jobs", "fg", "bg", "start", "startreal", "startfaulty"}
+\* (a pipeline of callable aliases only is not registered and purges nothing)
+PurgePoint == act.cmd \in {"jobs", "fg", "bg", "start", "startfaulty"} \/ (act.cmd = "startreal" /\ act.arg.kind # "alias")
 NoDeadAfterPurge == [][PurgePoint' => Present(tab') \subseteq alive']_vars
 
 \* `jobs` lists every live job exactly once
